@@ -22,18 +22,18 @@ CHECKS = {
          "per-reconcile flag monitor over recorded API calls + pause twins through the event-driven loop (differential final state)", SIM),
  "C12": ("exploration", "Every status write is checked for bounds, observedGeneration, the currentRevision transition rule and as a census of the snapshot (ready / replicas / current / updated) against the stored object before the call; census again at the quiescent fixed point, including after a failing last status write. The directed stale-status scenarios (conflict on the status write, cache catches up, retry) regress-test the repaired conflict-retry defect (known_findings.json: fixed).", "4 C12",
          "per-write status monitor (bounds, generation, revision transition, census of the snapshot) over recorded API calls + fixed-point census", SIM),
- "C13": ("exploration", "Every ControllerRevision delete is checked for ownership, liveness, count-once, oldest-first and the limit; post-condition after each successful reconcile.", "4 C13",
+ "C13": ("exploration", "Every ControllerRevision delete is checked for ownership, liveness, count-once, oldest-first and the limit; post-condition after each successful reconcile; directed multi-revision trims in which the k-th revision delete fails.", "4 C13",
          "per-reconcile history-delete monitor over recorded API calls", SIM),
  "C14": ("exploration", "Error-free Parallel reconciles must create every vacant desired ordinal and delete every live out-of-set pod in that same reconcile; update deletes <= 1.", "4 C14",
          "per-reconcile burst-completeness monitor over recorded API calls", SIM),
- "C15": ("exploration", "Panic monitor over generated CRD-admitted objects (admitted and defaulted by an interpreter of the shipped schema) x pod populations, in child processes so that a process-fatal crash is attributed to its logged input; event-handler deliveries (add / update / delete of the object, pod events) under the same monitor; hostile scenario family and long template histories (churn) as further workloads.", "4 C15",
+ "C15": ("exploration", "Panic monitor over generated CRD-admitted objects (admitted and defaulted by an interpreter of the shipped schema) x pod populations (incl. ordinals at the ends of the int32 range) x revision populations (revisions without data or with arbitrary JSON data, orphaned or owned), in child processes so that a process-fatal crash is attributed to its logged input; event-handler deliveries (add / update / delete of the object, pod events) under the same monitor; hostile scenario family and long template histories (churn) as further workloads.", "4 C15",
          "panic / process-death monitor over generated admitted inputs", "the CRD interpreter in refspec/crd.go models type/required/minimum/default/preserve-unknown-fields; astronomically large replicas are outside the generated domain"),
 }
 
 CHECKS.update({
  "C02": ("exploration", "Bounded-progress restatement of the liveness claim: after a hostile random phase the calm phase must reach the target state and a write-free round within 10*(pods+replicas)+30 rounds, then stay write-free for 5 more, every pod the controller built running the template of the revision its label names; unbounded 'eventually' cannot be decided by a finite run and is said so.", "4 C02",
          "scenario-level convergence + quiescence monitor (bounded progress in logical rounds) over the stepping engine, event-driven epilogues through the real handlers/queue, live engine under the Go race detector", SIM),
- "C06": ("exploration", "Ordered write log of the real pod control: identity stamping of every created pod, claims exist before the pod create, failed claim blocks the pod, no claim rewritten/deleted; directed slot-in/slot-out histories compare claim UIDs; single claim faults enumerated in directed scenarios.", "4 C06",
+ "C06": ("exploration", "Ordered write log of the real pod control: identity stamping of every created pod, claims exist before the pod create, failed claim blocks the pod, no claim rewritten/deleted; directed slot-in/slot-out histories compare claim UIDs; single claim faults enumerated in directed scenarios; set names at the DNS-label boundary (61-63 characters).", "4 C06",
          "write-log monitor over recorded API calls + directed histories", SIM),
  "C08": ("exploration", "After every successful reconcile the believed update revision is decoded independently and via the exported ApplyRevision and compared with the template; and must be the newest of the set's revisions; revision creates/renumbers judged; directed collision, rollback-after-collision and faulted-renumbering scenarios (both client conventions for the object returned next to an error).", "4 C08",
          "revision-store monitor over recorded API calls + directed collision scenarios", SIM),
@@ -45,11 +45,11 @@ CHECKS.update({
          "exhaustive event-shape enumeration + event sequences + queue-call monitor on a virtual-time work queue; live engine (quiescent => converged) under the Go race detector", "the virtual-time queue is the harness' implementation of workqueue.RateLimitingInterface; live informer path is exercised by the race tier only"),
  "C17": ("fault_enumeration", "Every API call position of helper.Upgrade x applicable error kind x {before, applied-then-error, crash before, crash after}, retried until success, plus sampled double faults, over generated built-in worlds; oracles on the combined log (orphan propagation, Advanced object equal at delete time, revisions relabelled, no pod/claim write) and differential final state.", "4 C17",
          "fault enumeration by call identity over the real upgrade helper with write-log monitor and differential final state", SIM),
- "C18": ("exploration", "Byte equality of revision data through the exported Match() against upstream's getPatch over the apps/v1 object for fuzzed templates; post-migration behaviour monitored on the real controller after the real Upgrade over worlds built by a reference built-in controller.", "4 C18",
+ "C18": ("exploration", "Byte equality of revision data through the exported Match() against upstream's getPatch over the apps/v1 object for fuzzed templates (integers within the validation range and beyond 2^53, where the built-in controller's float64 round trip rounds); post-migration behaviour monitored on the real controller after the real Upgrade over worlds built by a reference built-in controller.", "4 C18",
          "differential byte check + post-migration reconcile monitor", SIM + " The reference built-in controller state (revision naming/labels/owners) is written from upstream's algorithm."),
- "C19": ("exploration", "Round-trip / idempotence / codec monitors over gofuzz-generated apps/v1 objects through the real conversion functions and the real hijack client over simapi; returned objects of every write compared with a following Get; every verb with a failing backend must hand the error on; slot/pause codecs over int32 extremes and annotation maps.", "4 C19",
+ "C19": ("exploration", "Round-trip / idempotence / codec monitors over gofuzz-generated apps/v1 objects through the real conversion functions and the real hijack client over simapi; returned objects of every write compared with a following Get; every verb with a failing backend must hand the error on; slot/pause codecs over int32 extremes and annotation maps, and over two in-memory copies of one object version (same UID and resourceVersion).", "4 C19",
          "round-trip and idempotence monitors over generated objects", "the five unmodelled apps/v1 fields are derived by reflection and zeroed; simapi owns uid/resourceVersion/creationTimestamp like a real server"),
- "C20": ("exploration", "Goroutine-level driver for the hijacked watch: event sequences x prompt / late-closing source x consumer plans (incl. Stop while the relay is parked with an event in flight, decided from a goroutine dump) in child processes with production crash behaviour; sequence / closure / leak / source-stop oracles.", "4 C20",
+ "C20": ("exploration", "Goroutine-level driver for the hijacked watch: event sequences (consecutive events on other objects and on the same object at the same resourceVersion with other content) x prompt / late-closing source x consumer plans (incl. Stop while the relay is parked with an event in flight, decided from a goroutine dump) in child processes with production crash behaviour; sequence / closure / leak / source-stop oracles.", "4 C20",
          "schedule-driven producer/consumer/stopper harness with goroutine-dump leak detector, also under the Go race detector; process death attributed by logged input", "leak verdict = relay still parked 3 s after all other parties finished (state-based, wall clock only as watchdog)"),
 })
 
